@@ -146,7 +146,9 @@ def run(res):
         want_verdict = "pass" if m["exec"] == [] else "fail"
         if r["verdict"] != want_verdict or r["verdict"] != c["outcome"]:
             raise vlib.CheckError("case %s: verdict real %s, model %s, intended %s" % (c["id"], r["verdict"], want_verdict, c["outcome"]))
-        c["counts_differ"] = (r["meth"] != m["trace"]["method"]) or (c["where"] != "after-method" and r["root"] != m["trace"]["root"])
+        # only `bump` is instrumented in the real program; only `root(..)`-wrapped expressions count root evaluations
+        c["counts_differ"] = (c["where"] == "after-method" and r["meth"] != m["trace"]["method"]) or \
+            (c["where"] != "after-method" and r["root"] != m["trace"]["root"])
         if c["counts_differ"]:
             dis += 1
         # the property itself
